@@ -401,7 +401,7 @@ func CheckC10(t Target, src *choice.Src, st *Stats) *Violation {
 	}
 	// "the complete generated source" is what the same world writes to a fresh path: whatever -o
 	// was before (a file with other content and mode, a symbolic link), the bytes must be the same
-	if ref.Exit != 0 && mustFail(w) == "" && (w.OutKind == "symlink" || w.OutKind == "symlink-chain" || w.OutKind == "symlink-dangling" || (w.OutKind == "file" && w.PreOut != nil)) {
+	if ref.Exit != 0 && mustFail(w) == "" && (w.OutKind == "symlink" || w.OutKind == "symlink-chain" || w.OutKind == "symlink-dotdot-via-linked-dir" || w.OutKind == "symlink-dangling" || (w.OutKind == "file" && w.PreOut != nil)) {
 		// the other direction: a writable -o - an existing file, a link or a chain of links to a file or to a
 		// place where a file can be created - is no reason to fail: the same world with a fresh path decides
 		fw := w.Clone()
@@ -780,5 +780,5 @@ func judgeConcurrent(cw *World, cr, ref *Result, g *FileObs) (string, string) {
 
 // outIsFile: -o ends up as (a link to) a regular file whose bytes can be compared.
 func outIsFile(w *World) bool {
-	return w.OutKind == "file" || w.OutKind == "symlink" || w.OutKind == "symlink-dangling" || w.OutKind == "symlink-chain"
+	return w.OutKind == "file" || w.OutKind == "symlink" || w.OutKind == "symlink-dangling" || w.OutKind == "symlink-chain" || w.OutKind == "symlink-dotdot-via-linked-dir"
 }
